@@ -1405,7 +1405,12 @@ LEVEL_TEXT = ("Machine-checked round-trip theorems at character level for all th
               "regexes hand-compiled incl. the default-value regex, textwrap.dedent, Examples readers, option modes) are tied to the code by "
               "differential runs on rendered and perturbed docstrings of each style, their string functions to CPython str/re/textwrap, their "
               "renderers, expectations and gap predicates to the harness's, and every generated theorem instance (Google ~1250, Numpy ~730, Sphinx "
-              "~580 per quick run) is replayed on the implementation.")
+              "~580 per quick run) is replayed on the implementation. Histories: a Coq state machine over several docstrings that reference shared "
+              "option dictionaries (parse with per-call options, .parsed, writes into a configured dictionary, assignment of a new dictionary) "
+              "with theorems for ALL histories: parse and parsed never change a configured dictionary or a reference; a parse after any history is "
+              "parse_pure of the current configuration; the three round-trip theorems hold after any history of parse calls; parsed is cached. "
+              "The history stream (docstrings created by griffe.visit with one shared docstring_options dict) is compared with a fresh docstring "
+              "per call and with the extracted state machine (observations, final dictionaries, references).")
 LEVEL_NOTE = ("Trusted: Coq kernel, extraction, this harness (generators, renderers = documented syntax, expectation, canonicalisation). Annotation "
               "strings are compared as str(parse_docstring_annotation(x)) - expression parsing/printing is C03's subject; generated annotations are in "
               "canonical form (a Numpy choices item `{a, b}` is compared modulo that function). The theorems cover printable ASCII; the Numpy and "
